@@ -1,6 +1,6 @@
 SPECIFICATION Spec
 CONSTANTS
-  Cfg = "t1"
+  Cfg = "resv"
   Bug = "none"
   Sim = TRUE
 INVARIANT TypeOK
